@@ -26,13 +26,13 @@ CONSTANTS
   Weak_ReapOffByOne = FALSE
   Weak_FullCheckOnlyOnAdmit = FALSE
   Weak_EvictWithoutBytes = FALSE
-  Weak_CacheNotUpdatedOnCommit = TRUE
+  Weak_CacheNotUpdatedOnCommit = FALSE
   Weak_RecheckKeepsRejected = FALSE
-  Weak_NonAtomicAdmission = FALSE
+  Weak_NonAtomicAdmission = TRUE
 INIT Init
 NEXT NextCore
 CONSTRAINT DepthOK
-INVARIANTS InvCommittedGone
+INVARIANTS InvBounded
 
 VIEW View
 CHECK_DEADLOCK FALSE
